@@ -186,6 +186,31 @@ func registerModels(ex *Exec) {
 		}
 		return nil, nil, nil
 	}
+	m["intrinsic:verifBig"] = func(ex *Exec, s *State, cc *ssa.CallCommon, a []Value) (Value, *Fork, error) {
+		// verifBig(name string, bits int) *big.Int: an arbitrary integer in [0, 2^bits)
+		name, err := ex.symName(s, a[0])
+		if err != nil {
+			return nil, nil, err
+		}
+		bt := a[1].(*Term)
+		if !bt.IsConst() {
+			return nil, nil, unsupported("verifBig with symbolic width")
+		}
+		bits := int(bt.U)
+		c := ex.Ctx
+		if ex.bigIsInt() {
+			v := c.Var(name, SInt)
+			s.Syms = append(s.Syms, SymRec{Name: name, Kind: "bigint", Terms: []*Term{v}})
+			s.PC = append(s.PC, c.IntOp(OILe, c.IntI(0), v), c.IntOp(OILt, v, c.Int(pow2(bits))))
+			return ex.newBig(s, &BigV{T: v}), nil, nil
+		}
+		if bits > ex.bigW() {
+			return nil, nil, unsupported("verifBig wider than the big.Int model")
+		}
+		v := c.Var(name, SBV(bits))
+		s.Syms = append(s.Syms, SymRec{Name: name, Kind: "bigint", Terms: []*Term{v}})
+		return ex.newBig(s, &BigV{T: c.ZExt(v, ex.bigW()), MaxBits: bits}), nil, nil
+	}
 	m["intrinsic:verifAsAssign"] = modelAsAssign
 	m["intrinsic:verifObserve"] = func(ex *Exec, s *State, cc *ssa.CallCommon, a []Value) (Value, *Fork, error) {
 		return nil, nil, nil
